@@ -3,6 +3,7 @@ import GV.Model.KesSym
 import GV.Proofs.Kes
 import GV.Gen.GoLite
 import GV.Gen.KesConsts
+import GV.Gen.KesFacts
 /-!
 C39 — KES signatures are forward-secure and period-bound.
 
@@ -204,6 +205,27 @@ theorem consts_layout :
     GV.Gen.KesConsts.cardanoKesSecretKeySize = secretKeySize GV.Gen.KesConsts.cardanoKesDepth ∧
     GV.Gen.KesConsts.sigmaSize = 64 ∧ GV.Gen.KesConsts.publicKeySize = 32 ∧
     GV.Gen.KesConsts.kesSeedSize = 32 ∧ GV.Gen.KesConsts.kesEd25519KeySize = 32 := by
+  decide
+
+/-- Regenerated source facts: the branch conditions of Sign, signInternal, Update, updateInternal,
+    Verify, NewSumKesFromBytes, keyGenInternal and secretKeySize as they stand in kes/*.go on
+    this run; the model's `sign`, `signInternal`, `update`, `updateInternal`, `verify`,
+    `newSumKesFromBytes` were written against exactly these comparisons (a `<` turned into `<=`
+    or a dropped `-1` breaks this obligation without any test input). -/
+theorem source_facts :
+    GV.Gen.KesFacts.signConds =
+      ["sk == nil", "sk.Data == nil", "period >= maxPeriod", "period != sk.Period", "err != nil"] ∧
+    GV.Gen.KesFacts.signInternalConds = ["depth == 0", "period < halfPeriod"] ∧
+    GV.Gen.KesFacts.updateConds =
+      ["sk == nil", "sk.Data == nil", "newPeriod >= maxPeriod", "err != nil"] ∧
+    GV.Gen.KesFacts.updateInternalConds =
+      ["depth == 0", "period < halfPeriod-1", "period == halfPeriod-1", "err != nil"] ∧
+    GV.Gen.KesFacts.verifyConds =
+      ["period >= maxPeriod", "subtle.ConstantTimeCompare(pk2, pubKey) != 1", "period >= nextDepth"] ∧
+    GV.Gen.KesFacts.parseConds =
+      ["depth == 0", "kesSize > math.MaxInt", "len(fromByte) != int(kesSize)", "depth == 1", "err != nil"] ∧
+    GV.Gen.KesFacts.keyGenInternalConds = ["depth == 0", "err != nil", "err != nil"] ∧
+    GV.Gen.KesFacts.secretKeySizeConds = ["depth == 0", "depth > math.MaxInt/96"] := by
   decide
 
 /-! ### non-vacuity: the hypotheses hold for the free term instance -/
